@@ -12,8 +12,15 @@ def plain(a):
         data = np.array(np.ma.getdata(a), copy=True, subok=False)
         mask = np.array(np.ma.getmaskarray(a), copy=True, subok=False)
         try:
-            fill = a.fill_value
-            fill = np.asarray(fill).item() if np.ndim(fill) == 0 else None
+            # read the stored value without numpy's validating getter (which
+            # re-casts an unrepresentable fill in place) and compare fills as
+            # values of the variable's dtype
+            fill = getattr(a, '_fill_value', None)
+            if fill is None:
+                fill = a.fill_value
+            with np.errstate(all='ignore'):
+                fill = np.asarray(fill).astype(data.dtype, casting='unsafe')
+            fill = fill.item() if np.ndim(fill) == 0 else None
         except Exception:
             fill = None
         return data, mask, fill
